@@ -41,7 +41,7 @@ def run(cmd, cwd=None, env=None, timeout=None, capture=True):
     return p.returncode, (p.stdout or ""), time.time() - t0
 
 
-def run_watch(cmd, cwd, env, progress_file, stall=240, timeout=3600):
+def run_watch(cmd, cwd, env, progress_file, stall=100, timeout=3600):
     """Run a harness in careful mode and watch `<trace>.progress` (the index of the execution in progress): if it
     does not change for `stall` seconds the execution in progress hangs (returns rc = "hang")."""
     e = dict(os.environ)
@@ -228,8 +228,8 @@ class Ctx:
             stim = thin_stimuli(stim, self.light)
         args = ["run", stim, trace] + (extra_args or [])
         try:
-            # (quick tier: no harness run takes more than a minute or two; a run still going after ten is treated as stuck)
-            rc, out, dt = run([binpath] + args, cwd=self.work, timeout=min(timeout, 600) if self.tier == "quick" else timeout)
+            # (quick tier: no harness run takes more than a minute or two; a run still going after five is treated as stuck)
+            rc, out, dt = run([binpath] + args, cwd=self.work, timeout=min(timeout, 300) if self.tier == "quick" else timeout)
         except ToolError:
             # The code under test may also never return (e.g. an index that wrapped in a release build): the careful
             # re-run watches the progress file and attributes a stall of several minutes to the execution in progress.
@@ -262,7 +262,8 @@ class Ctx:
                             "event": {"ev": "hang" if rc == "hang" else "crash", "exit": rc, "output": out[-300:]},
                             "exec": stimuli[k]})
             start = k + 1
-            if len(crashes) >= max_crashes or start >= len(stimuli):
+            hangs = sum(1 for c in crashes if c["kind"] == "hang")
+            if len(crashes) >= max_crashes or hangs >= 2 or start >= len(stimuli):
                 break
         if os.path.exists(trace + ".progress"):
             os.remove(trace + ".progress")
